@@ -46,7 +46,11 @@ class Lane:
 
     def key(self, obname, out):
         if out[0] == 'panic':
-            return 'panic:' + (out[1].msg or out[1].kind)
+            # role key: the panic message without its payload ("control type: FromUtf8Error {..}" -> "control type")
+            m = (out[1].msg or out[1].kind)
+            m = m.split(': ')[0].split(' (')[0][:60]
+            site = out[1].fn if out[1].fn.endswith('.rs') else ''
+            return 'panic:' + (site + ':' if site else '') + m
         return obname
 
     def concrete_vectors(self, rng):
